@@ -9,6 +9,9 @@ use std::{
 
 mod runtime;
 pub(crate) use runtime::TimerRuntime;
+#[cfg(compio_verif)]
+#[doc(hidden)]
+pub use runtime::verif;
 
 mod future;
 pub use future::{Interval, Sleep, Timeout};
